@@ -1,0 +1,264 @@
+//go:build verif
+// +build verif
+
+package raft
+
+// Contracts for the task layer: status reports (C19), replication updates reaching the leader
+// (C06/C02/C11), task dispatch (C07/C15/C16), the configuration builders used by clients (C08)
+// and the RPC exchange on a pooled connection (C20/C15). Comment-only file.
+
+// ---------------------------------------------------------------------------
+// status report (C19)
+
+// goroutine boundary (T-go): lastApplied() sends a lastApplied task to the FSM goroutine and waits for
+// its answer (fsm.index). trusted because the body is a channel send + receive. The bound is the channel
+// protocol assumption PA-ch.last-applied: the FSM goroutine only ever applies views ViewAt(prev, commitIndex)
+// handed to it by applyCommitted (C03.apply-view, C03.apply-contiguous: fsm.index == view.glast) or restores
+// the snapshot the commit index was reset to, and the commit index never decreases afterwards (C19).
+//@ func (*Raft).lastApplied
+//@   trusted
+//@   requires r.fsm != nil
+//@   ensures [PA-ch.last-applied] result0 <= r.commitIndex
+
+// resolver lookup only (trusted lookupID: T-go, mutex + user callback)
+//@ func (*Raft).addr
+//@   requires r.storage != nil && r.resolver != nil
+
+//@ func (Configs).clone
+//@   ensures [C08.clone-same] result0.Committed.Index == c.Committed.Index && result0.Committed.Term == c.Committed.Term && result0.Latest.Index == c.Latest.Index && result0.Latest.Term == c.Latest.Term
+//@   ensures [C08.clone-same] forall(k, has(result0.Committed.Nodes, k) == has(c.Committed.Nodes, k) && result0.Committed.Nodes[k] == c.Committed.Nodes[k])
+//@   ensures [C08.clone-same] forall(k, has(result0.Latest.Nodes, k) == has(c.Latest.Nodes, k) && result0.Latest.Nodes[k] == c.Latest.Nodes[k])
+//@   ensures [C08.clone-fresh] isfresh(result0.Committed.Nodes) && isfresh(result0.Latest.Nodes) && result0.Committed.Nodes != result0.Latest.Nodes
+
+//@ func (*Raft).info
+// OUTSIDE ENGINE REACH (assumed, listed in the evidence): the leader branch stores the interior pointer
+// &repl.status.noContact into a map value; the non-leader path of this contract was discharged 26/26
+//@   trusted
+//@   requires NodeInv(r)
+//@   requires r.state == Leader ==> r.ldr != nil && ReplsNonNil(r.ldr)
+//@   ensures [C19.report-is-node-state] result0.Term == r.term && result0.Committed == r.commitIndex && result0.SnapshotIndex == r.snaps.index && result0.LastLogIndex == r.lastLogIndex && result0.LastLogTerm == r.lastLogTerm && result0.State == r.state && result0.Leader == r.leader && result0.CID == r.cid && result0.NID == r.nid
+//@   ensures [C19.report-is-node-state] r.lastLogIndex < 18446744073709551615 ==> result0.FirstLogIndex == r.log.gprev + 1
+//@   ensures [C19.report-is-node-state] result0.Configs.Committed.Index == r.configs.Committed.Index && result0.Configs.Latest.Index == r.configs.Latest.Index && result0.Configs.Committed.Term == r.configs.Committed.Term && result0.Configs.Latest.Term == r.configs.Latest.Term
+//@   ensures [C19.report-is-node-state] forall(k, has(result0.Configs.Latest.Nodes, k) == has(r.configs.Latest.Nodes, k) && result0.Configs.Latest.Nodes[k] == r.configs.Latest.Nodes[k]) && forall(k, has(result0.Configs.Committed.Nodes, k) == has(r.configs.Committed.Nodes, k) && result0.Configs.Committed.Nodes[k] == r.configs.Committed.Nodes[k])
+//@   ensures [C19.applied-le-commit-le-last] result0.LastApplied <= result0.Committed && result0.Committed <= result0.LastLogIndex
+//@   ensures [C19.first-snapshot-last] result0.FirstLogIndex - 1 <= result0.SnapshotIndex && result0.SnapshotIndex <= result0.LastLogIndex
+//@   ensures [C19.config-committed-le-latest] result0.Configs.Committed.Index <= result0.Configs.Latest.Index
+//@   ensures [C19.followers-only-on-leader] r.state != Leader ==> result0.Followers == nil
+//@   ensures [C19.followers-are-replications] r.state == Leader ==> result0.Followers != nil && isfresh(result0.Followers) && forall(k, has(result0.Followers, k) == has(r.ldr.repls, k)) && forall(k, has(r.ldr.repls, k) ==> result0.Followers[k].ID == k && result0.Followers[k].MatchIndex == r.ldr.repls[k].status.matchIndex)
+//@   modifies
+//@   loop 1 invariant flrs != nil && isfresh(flrs) && subset(visitedset(), keys(r.ldr.repls))
+//@   loop 1 invariant forall(k, has(flrs, k) == visited(k)) && forall(k, visited(k) ==> flrs[k].ID == k && flrs[k].MatchIndex == r.ldr.repls[k].status.matchIndex)
+
+// ---------------------------------------------------------------------------
+// configuration builders used by clients before a ChangeConfig request (C08 "request validation":
+// voting rights cannot be changed directly, new nodes join as non-voters; errors change nothing)
+
+//@ pure NodesSame(c *Config) bool = forall(k, has(c.Nodes, k) == old(has(c.Nodes, k)) && c.Nodes[k] == old(c.Nodes[k]))
+//@ pure NodesSameExcept(c *Config, id uint64) bool = forall(k, k != id ==> has(c.Nodes, k) == old(has(c.Nodes, k)) && c.Nodes[k] == old(c.Nodes[k]))
+//@ pure AddrsUnique(c Config) bool = forall(j, k, has(c.Nodes, j) && has(c.Nodes, k) && j != k ==> c.Nodes[j].Addr != c.Nodes[k].Addr)
+//@ pure VotersSame(c *Config) bool = forall(k, IsVoter(*c, k) == old(IsVoter(*c, k)))
+
+//@ func (Config).nodeForAddr
+//@   ensures [C08.addr-lookup] result1 ==> result0.Addr == addr && exists(k, has(c.Nodes, k) && c.Nodes[k] == result0)
+//@   ensures [C08.addr-lookup] !result1 ==> forall(k, has(c.Nodes, k) ==> c.Nodes[k].Addr != addr)
+//@   loop 1 invariant subset(visitedset(), keys(c.Nodes)) && forall(k, visited(k) ==> c.Nodes[k].Addr != addr)
+
+//@ func (*Config).addNode
+//@   requires c.Nodes != nil
+//@   modifies contents(c.Nodes)
+//@   ensures [C08.add-valid-new-node] result0 == nil ==> NodeOK(n) && !old(has(c.Nodes, n.ID)) && has(c.Nodes, n.ID) && c.Nodes[n.ID] == n
+//@   ensures [C08.add-frame] NodesSameExcept(c, n.ID) && c.Index == old(c.Index) && c.Term == old(c.Term)
+//@   ensures [C08.error-changes-nothing] result0 != nil ==> NodesSame(c)
+//@   ensures [C08.no-overwrite] old(has(c.Nodes, n.ID)) ==> result0 != nil
+
+//@ func (*Config).AddVoter
+//@   requires c.Nodes != nil
+//@   modifies contents(c.Nodes)
+//@   ensures [C08.voters-only-at-bootstrap] c.Index > 0 ==> result0 != nil
+//@   ensures [C08.add-valid-new-node] result0 == nil ==> !old(has(c.Nodes, id)) && has(c.Nodes, id) && c.Nodes[id].ID == id && c.Nodes[id].Addr == addr && c.Nodes[id].Voter && c.Nodes[id].Action == None && id != 0
+//@   ensures [C08.add-frame] NodesSameExcept(c, id) && c.Index == old(c.Index) && c.Term == old(c.Term)
+//@   ensures [C08.error-changes-nothing] result0 != nil ==> NodesSame(c)
+
+//@ func (*Config).AddNonvoter
+//@   requires c.Nodes != nil
+//@   modifies contents(c.Nodes)
+//@   ensures [C08.new-nodes-join-as-nonvoters] result0 == nil ==> !old(has(c.Nodes, id)) && has(c.Nodes, id) && !c.Nodes[id].Voter && c.Nodes[id].ID == id && c.Nodes[id].Addr == addr && c.Nodes[id].Action == ite(promote, Promote, None) && id != 0
+//@   ensures [C08.new-nodes-join-as-nonvoters] VotersSame(c)
+//@   ensures [C08.add-frame] NodesSameExcept(c, id) && c.Index == old(c.Index) && c.Term == old(c.Term)
+//@   ensures [C08.error-changes-nothing] result0 != nil ==> NodesSame(c)
+
+//@ func (*Config).SetAction
+//@   requires c.Nodes != nil
+//@   modifies contents(c.Nodes)
+//@   ensures [C08.action-set] result0 == nil ==> old(has(c.Nodes, id)) && has(c.Nodes, id) && c.Nodes[id].Action == action && c.Nodes[id].ID == old(c.Nodes[id].ID) && c.Nodes[id].Addr == old(c.Nodes[id].Addr) && c.Nodes[id].Data == old(c.Nodes[id].Data)
+//@   ensures [C08.action-valid-for-role] result0 == nil ==> action <= ForceRemove && !(action == Promote && c.Nodes[id].Voter) && !(action == Demote && !c.Nodes[id].Voter)
+//@   ensures [C08.voting-rights-not-changed-directly] VotersSame(c)
+//@   ensures [C08.set-frame] NodesSameExcept(c, id) && c.Index == old(c.Index) && c.Term == old(c.Term)
+//@   ensures [C08.error-changes-nothing] result0 != nil ==> NodesSame(c)
+//@   ensures [C08.unknown-node] !old(has(c.Nodes, id)) ==> result0 != nil
+
+//@ func (*Config).SetAddr
+//@   requires c.Nodes != nil
+//@   modifies contents(c.Nodes)
+//@   ensures [C08.addr-set] result0 == nil ==> old(has(c.Nodes, id)) && has(c.Nodes, id) && c.Nodes[id].Addr == addr && c.Nodes[id].ID == old(c.Nodes[id].ID) && c.Nodes[id].Action == old(c.Nodes[id].Action) && c.Nodes[id].Data == old(c.Nodes[id].Data)
+//@   ensures [C08.addr-unique] result0 == nil && old(KeysOK(*c)) && old(AddrsUnique(*c)) ==> forall(k, has(c.Nodes, k) && k != id ==> c.Nodes[k].Addr != addr) && AddrsUnique(*c)
+//@   ensures [C08.addr-unique] old(KeysOK(*c)) && old(exists(k, has(c.Nodes, k) && k != id && c.Nodes[k].Addr == addr)) && old(c.Nodes[id].Addr != addr) ==> result0 != nil
+//@   ensures [C08.voting-rights-not-changed-directly] VotersSame(c)
+//@   ensures [C08.set-frame] NodesSameExcept(c, id) && c.Index == old(c.Index) && c.Term == old(c.Term)
+//@   ensures [C08.error-changes-nothing] result0 != nil ==> NodesSame(c)
+//@   ensures [C08.unknown-node] !old(has(c.Nodes, id)) ==> result0 != nil
+
+//@ func (*Config).SetData
+//@   requires c.Nodes != nil
+//@   modifies contents(c.Nodes)
+//@   ensures [C08.data-set] result0 == nil ==> old(has(c.Nodes, id)) && has(c.Nodes, id) && c.Nodes[id].Data == data && c.Nodes[id].ID == old(c.Nodes[id].ID) && c.Nodes[id].Action == old(c.Nodes[id].Action) && c.Nodes[id].Addr == old(c.Nodes[id].Addr)
+//@   ensures [C08.voting-rights-not-changed-directly] VotersSame(c)
+//@   ensures [C08.set-frame] NodesSameExcept(c, id) && c.Index == old(c.Index) && c.Term == old(c.Term)
+//@   ensures [C08.error-changes-nothing] result0 != nil ==> NodesSame(c)
+//@   ensures [C08.unknown-node] (result0 == nil) == old(has(c.Nodes, id))
+
+// ---------------------------------------------------------------------------
+// one RPC on a pooled connection (C20, C15)
+//   conn.gexch     : number of request/response exchanges started on the connection
+//   conn.gclosed   : the connection has been closed by the pool user
+//   conn.greturned : number of times the connection was handed back to the pool
+// gclosed / greturned are ghost observations of this function's own calls (ghostcode below).
+
+//@ ghost field conn.gexch int
+//@ ghost field conn.gclosed bool
+//@ ghost field conn.greturned int
+//@ pure Exch(x *conn) int = x.gexch
+//@ pure ConnChecked(x *conn, pool *connPool) bool = x.gcid == pool.cid && x.gnid == pool.nid
+//@ pure ConnClosed(x *conn) bool = x.gclosed
+//@ pure ConnReturned(x *conn) int = x.greturned
+
+// network boundary (T-go), trusted: the reference contract of (*conn).doRPC plus the exchange counter
+//@ view (*conn).doRPC at (*connPool).doRPC
+//@   modifies c.gcid, c.gnid, allof(resp), c.gexch
+//@   ensures result0 == nil && istype(req, *identityReq) && istype(resp, *identityResp) && as(resp, *identityResp).result == success ==> c.gcid == as(req, *identityReq).cid && c.gnid == as(req, *identityReq).nid
+//@   ensures !istype(req, *identityReq) ==> c.gcid == old(c.gcid) && c.gnid == old(c.gnid)
+//@   ensures c.gexch == old(c.gexch) + 1
+
+// STUB (outside area tasks): the reference contract of (*connPool).getConn does not pass on that the connection it
+// returns has a socket (PoolInv for pooled ones, dial for fresh ones). This view = reference contract + that one
+// clause; the clause was checked by adding it to the reference contract in a scratch copy: getConn verifies 59/59.
+// To be reconciled by adding `ensures result1 == nil ==> result0.rwc != nil` to getConn and deleting this view.
+//@ view (*connPool).getConn at (*connPool).doRPC
+//@   requires PoolInv(pool) && pool.resolver != nil && !tzero(deadline.wall, deadline.ext)
+//@   modifies pool.conns, contents(pool.conns)
+//@   ensures [C20.conn-handshake] result1 == nil ==> result0 != nil && result0.gcid == pool.cid && result0.gnid == pool.nid
+//@   ensures result1 == nil ==> result0.rwc != nil
+//@   ensures [C20.conn-or-error] result1 != nil ==> result0 == nil
+//@   ensures [C20.pool-inv] PoolInv(pool)
+
+//@ func (*connPool).doRPC
+//@   props C15
+//@   requires PoolInv(pool) && pool.resolver != nil && !tzero(deadline.wall, deadline.ext)
+// a second handshake on a checked connection could re-label it; the identity exchange belongs to getConn
+//@   requires [C20.no-rehandshake] !istype(req, *identityReq)
+//@   modifies pool.conns, contents(pool.conns), elems(*conn), allof(resp), conn.gexch, conn.gclosed, conn.greturned
+//@   ghostcode after call Close 1: c.gclosed := true
+//@   ghostcode after call returnConn 1: c.greturned := c.greturned + 1
+//@   ensures [C20.rpc-on-checked-conn] forall(x, Exch(x) != old(Exch(x)) ==> x == c && ConnChecked(x, pool))
+//@   ensures [C20.rpc-on-checked-conn] result0 == nil ==> c != nil && Exch(c) == old(Exch(c)) + 1
+//@   ensures [C15.returned-only-after-complete-exchange] result0 == nil ==> ConnReturned(c) == old(ConnReturned(c)) + 1 && ConnClosed(c) == old(ConnClosed(c))
+//@   ensures [C15.closed-otherwise] result0 != nil && c != nil ==> ConnClosed(c) && ConnReturned(c) == old(ConnReturned(c))
+//@   ensures [C15.no-conn-no-exchange] c == nil ==> result0 != nil && forall(x, Exch(x) == old(Exch(x)))
+//@   ensures [C15.other-conns-untouched] forall(x, x != c ==> ConnClosed(x) == old(ConnClosed(x)) && ConnReturned(x) == old(ConnReturned(x)))
+//@   ensures [C20.pool-inv] PoolInv(pool)
+
+// ---------------------------------------------------------------------------
+// task dispatch (C07, C15, C16): every task is answered exactly once or handed to exactly one handler
+//   task.greplied : ghost reply counter (see (*task).reply)
+
+//   gdispatch     : ghost count of tasks handed to a handler (ghostcode right after the handler call)
+//@ ghost var gdispatch int
+//   gdirect       : ghost count of answers given by the dispatchers themselves (ghostcode right after their reply calls)
+//@ ghost var gdirect int
+
+// TaskPtr(t): the *task embedded in the dynamic value of a Task (every implementer embeds *task and inherits
+// Done/Err/Result/reply from it; transfer shadows reply with another signature and is not a Task)
+//@ pure TaskPtr(t Task) uint64 = ite(istype(t, infoTask), ref(as(t, infoTask).task), ite(istype(t, inspect), ref(as(t, inspect).task), ite(istype(t, changeConfig), ref(as(t, changeConfig).task), ite(istype(t, waitForStableConfig), ref(as(t, waitForStableConfig).task), ite(istype(t, takeSnapshot), ref(as(t, takeSnapshot).task), ite(istype(t, transferLdr), ref(as(t, transferLdr).task), ite(istype(t, *newEntry), ref(as(t, *newEntry).task), ite(istype(t, newEntry), ref(as(t, newEntry).task), ite(istype(t, lastApplied), ref(as(t, lastApplied).task), ite(istype(t, fsmSnapReq), ref(as(t, fsmSnapReq).task), ref(as(t, *task))))))))))))
+//@ pure TaskRes(t *task) interface{} = t.result
+//@ pure RepliedOnce(t *task) bool = t.greplied == old(t.greplied) + 1
+//@ pure NotReplied(t *task) bool = t.greplied == old(t.greplied)
+//@ pure OthersNotReplied(t *task) bool = forall(x, x != t ==> GRep(x) == old(GRep(x)) && TaskRes(x) == old(TaskRes(x)))
+//@ pure NoReplies() bool = forall(x, GRep(x) == old(GRep(x)) && TaskRes(x) == old(TaskRes(x)))
+
+// Dynamic dispatch of reply() on a Task value. The interface has more than 8 implementers, which is beyond the
+// engine's closed-world case split, so the call is summarised by this contract: every implementer's reply IS the
+// promoted (*task).reply (trusted above: channel close = goroutine boundary), applied to the embedded *task.
+//@ func Task.reply params(t, result)
+//@   trusted
+//@   modifies task.result, task.greplied
+//@   ensures [C15.reply-once] TaskPtr(t) != 0 ==> RepliedOnce(TaskPtr(t)) && TaskRes(TaskPtr(t)) == result
+//@   ensures OthersNotReplied(TaskPtr(t))
+
+//@ pure IsLeaderTask(t Task) bool = istype(t, changeConfig) || istype(t, waitForStableConfig) || istype(t, transferLdr)
+//@ pure KnownTask(t Task) bool = istype(t, infoTask) || istype(t, inspect) || istype(t, changeConfig) || istype(t, waitForStableConfig) || istype(t, takeSnapshot) || istype(t, transferLdr) || istype(t, *newEntry) || istype(t, newEntry) || istype(t, lastApplied) || istype(t, fsmSnapReq) || istype(t, *task)
+
+//@ func (*leader).executeTask
+//@   maypanic OpError
+//@   props C15
+//@   requires LeaderWF(l) && l.flushed >= l.commitIndex && XferWF(l) && !has(l.configs.Latest.Nodes, 0) && l.nid != 0
+//@   requires [C11.leader-is-voter] CfgCommitted(l.storage) ==> IsVoter(l.configs.Latest, l.nid)
+//@   requires ptrnonnil(t) && KnownTask(t) && TaskPtr(t) != 0
+//@   ghostcode after call onChangeConfig 1: gdispatch := gdispatch + 1
+//@   ghostcode after call onWaitForStableConfig 1: gdispatch := gdispatch + 1
+//@   ghostcode after call onTransfer 1: gdispatch := gdispatch + 1
+//@   ghostcode after call reply 1: gdirect := gdirect + 1
+//@   ghostcode after call reply 2: gdirect := gdirect + 1
+//@   modifies gdispatch, gdirect, l.transfer.term, l.transfer.transferLdr, l.transfer.deadline, l.transfer.timer.active, l.transfer.respCh, xferTarget, elems(waitForStableConfig)
+//@   modifies l.node, l.numVoters, l.neHead, l.neTail, l.waitStable, l.state, l.leader, l.commitIndex, l.storage.lastLogIndex, l.storage.lastLogTerm, l.storage.gterm, l.storage.gtyp, l.storage.flushed, l.storage.configs, Log.glast, contents(l.repls), replication.status, round.Ordinal, round.Start, round.End, round.LastIndex, newEntry.next, entry.index, entry.term, task.result, task.greplied, contents(l.resolver.addrs), contents(l.connPools), closeRequested, sortgen
+//@   ensures [C15.answered-or-handed-over] gdispatch == old(gdispatch) + ite(IsLeaderTask(t), 1, 0) && gdirect == old(gdirect) + ite(IsLeaderTask(t), 0, 1)
+//@   ensures [C15.answered-or-handed-over] !IsLeaderTask(t) ==> RepliedOnce(TaskPtr(t)) && OthersNotReplied(TaskPtr(t))
+//@   ensures [C15.fsm-task-on-admin-channel] istype(t, *newEntry) ==> TaskRes(TaskPtr(t)) != nil
+//@   ensures [C15.invalid-task-answered] !IsLeaderTask(t) && !istype(t, *newEntry) ==> IsPlainErr(TaskRes(TaskPtr(t)), errInvalidTask)
+//@   ensures [C07.only-handlers-touch-the-log] !IsLeaderTask(t) ==> l.lastLogIndex == old(l.lastLogIndex) && l.commitIndex == old(l.commitIndex) && l.configs == old(l.configs) && l.state == old(l.state)
+//@   ensures [C16.transfer-answered-or-recorded] istype(t, transferLdr) ==> (RepliedOnce(TaskPtr(t)) && TaskRes(TaskPtr(t)) != nil && l.transfer.task == old(l.transfer.task) && l.transfer.timer.active == old(l.transfer.timer.active)) || (NotReplied(TaskPtr(t)) && ref(l.transfer.task) == TaskPtr(t) && l.transfer.timer.active && l.transfer.term == l.term)
+//@   ensures [C16.transfer-keeps-log] istype(t, transferLdr) ==> l.lastLogIndex == old(l.lastLogIndex) && l.commitIndex == old(l.commitIndex) && l.configs == old(l.configs)
+//@   ensures [C08.wait-answered-or-queued] istype(t, waitForStableConfig) ==> l.lastLogIndex == old(l.lastLogIndex) && l.commitIndex == old(l.commitIndex) && l.configs == old(l.configs) && (old(CfgCommitted(l.storage) && CfgStable(l.configs.Latest)) ==> l.waitStable == old(l.waitStable)) && (!old(CfgCommitted(l.storage) && CfgStable(l.configs.Latest)) ==> len(l.waitStable) == old(len(l.waitStable)) + 1 && TaskRes(TaskPtr(t)) == old(TaskRes(TaskPtr(t))))
+//@   ensures [C19.commit-monotone] l.commitIndex >= old(l.commitIndex) && l.lastLogIndex >= old(l.lastLogIndex)
+//@   ensures [C02.config-guard] istype(t, changeConfig) && old(!CfgCommitted(l.storage)) ==> MbUnchanged(l, old(l.configs.Latest), old(l.configs.Committed), old(l.lastLogIndex), old(l.commitIndex))
+//@   ensures LeaderWF(l) && l.flushed >= l.commitIndex
+
+// what (*Raft).executeTask hands to a handler: changeConfig (leader: onChangeConfig, otherwise bootstrap), takeSnapshot
+// (onTakeSnapshot), and on a leader the two leader-only tasks; everything else is answered on the spot
+//@ pure HandedOver(t Task, ldr bool) bool = istype(t, changeConfig) || istype(t, takeSnapshot) || (ldr && (istype(t, waitForStableConfig) || istype(t, transferLdr)))
+//@ pure LdrTaskPre(l *leader) bool = LeaderWF(l) && l.flushed >= l.commitIndex && XferWF(l) && !has(l.configs.Latest.Nodes, 0) && l.nid != 0 && (CfgCommitted(l.storage) ==> IsVoter(l.configs.Latest, l.nid))
+
+//@ func (*Raft).executeTask
+//@   maypanic OpError
+//@   props C15
+//@   requires NodeInv(r)
+//@   requires r.state == Leader ==> r.ldr != nil && r.ldr.Raft == r && LdrTaskPre(r.ldr)
+//@   requires ptrnonnil(t) && KnownTask(t) && TaskPtr(t) != 0
+//@   ghostcode after call bootstrap 1: gdispatch := gdispatch + 1
+//@   ghostcode after call onTakeSnapshot 1: gdispatch := gdispatch + 1
+//@   ghostcode after call reply 1: gdirect := gdirect + 1
+//@   ghostcode after call reply 2: gdirect := gdirect + 1
+//@   ghostcode after call reply 3: gdirect := gdirect + 1
+//@   modifies *
+//@   ensures [C15.answered-or-handed-over] gdispatch == old(gdispatch) + ite(HandedOver(t, old(r.state == Leader)), 1, 0) && gdirect == old(gdirect) + ite(HandedOver(t, old(r.state == Leader)), 0, 1)
+//@   ensures [C15.answered-or-handed-over] !HandedOver(t, old(r.state == Leader)) ==> RepliedOnce(TaskPtr(t)) && OthersNotReplied(TaskPtr(t))
+//@   ensures [C07+C16.not-leader-rejects-definitively] old(r.state != Leader) && !istype(t, infoTask) && !istype(t, inspect) && !HandedOver(t, false) ==> istype(TaskRes(TaskPtr(t)), NotLeaderError) && !as(TaskRes(TaskPtr(t)), NotLeaderError).Lost
+//@   ensures [C19.info-answer] istype(t, infoTask) ==> istype(TaskRes(TaskPtr(t)), Info)
+//@   ensures [C07.non-leader-keeps-log] old(r.state != Leader) && !istype(t, changeConfig) && !istype(t, inspect) ==> r.lastLogIndex == old(r.lastLogIndex) && r.commitIndex == old(r.commitIndex) && r.configs == old(r.configs) && r.term == old(r.term) && r.votedFor == old(r.votedFor) && r.state == old(r.state)
+//@   ensures [C19.commit-monotone] !istype(t, inspect) ==> r.commitIndex >= old(r.commitIndex)
+// the bootstrap arm is excluded: the (trusted, membership area) contract of (*storage).bootstrap leaves the term open when it
+// fails, and the code behind it does not keep the term either: setTerm(1) on a node that already adopted a term >= 2
+// trips assert(term > s.term) after the configuration entry has been appended (reported as a suspected defect)
+//@   ensures [C19.term-monotone] !istype(t, inspect) && !(istype(t, changeConfig) && old(r.state != Leader)) ==> r.term >= old(r.term)
+
+// ---------------------------------------------------------------------------
+// NOT CONTRACTED (reported): (*leader).checkReplUpdates and (*Raft).runBatch.
+// checkReplUpdates was probed with `requires LeaderWF(l) && l.flushed >= l.commitIndex && XferWF(l) && u.status != nil`,
+// `modifies *`, `maypanic *`, ensures [C19.commit-monotone] and the same facts as loop invariant: 1652 obligations,
+// 261 s (type switch x select arms x 2^3 tail flags x transfer arms), far beyond the per-function budget. Besides the cost:
+//  - the updates after the first are RECEIVED inside the loop (select on l.replUpdateCh); the engine gives them arbitrary
+//    values and has no way to assume the channel invariant (u.status != nil, u.status is the status of a live
+//    replication of l, a matchIndex update is <= l.lastLogIndex), so the invariant cannot be re-established;
+//  - u.status is an interior pointer (&repl.status); the engine models *replicationStatus objects apart from the
+//    replication.status fields LeaderWF / MatchOf speak about, so `status.matchIndex = u.val` would not reach
+//    majorityMatchIndex's view of the match indexes (C06/C02 would hold vacuously).
+// runBatch is a pure select loop over three channels (goroutine boundary): nothing the engine executes.
